@@ -393,7 +393,8 @@ Fixpoint oracle (lv cs ld orph : list nat) (tr : list obs) : N :=
       | LDBegin i => oracle lv cs (if mem_nat i cs then i :: ld else ld) orph r
       | LCbStart i => oracle lv cs ld (if mem_nat i ld then rm i lv ++ orph else orph) r
       | LReturn i =>
-          if negb (o_sampled o) || opt_nat_eqb (o_map o) (Some i) then oracle lv cs ld orph r else 3%N
+          if negb (o_sampled o) || opt_nat_eqb (o_map o) (Some i) then oracle lv cs ld orph r
+          else if mem_nat i orph then 4%N else 3%N
       | _ => oracle lv cs ld orph r
       end
   end.
